@@ -19,8 +19,8 @@ EXCLUDED = {
     'ElementTetSkeletonP0': 'piecewise: lbasis multiplies by RefTet.on_facet (comparisons on coordinates)',
     'ElementHexSkeleton0': 'piecewise: lbasis multiplies by RefHex.on_facet (comparisons on coordinates)',
     'ElementTriBDM1': 'coefficients in Q(sqrt 3) (Gauss points s_1, s_2), not rational',
-    'ElementLinePp': 'parametrised; numpy Legendre objects with sqrt((2n-1)/2) scaling written into float arrays',
-    'ElementQuadP': 'parametrised; numpy Legendre objects with sqrt((2n-1)/2) scaling written into float arrays',
+    'ElementLinePp': 'parametrised; not in the exact tie (numpy Legendre objects, sqrt scales): handled for p<=5 by the Legendre-family path (formal scales, snapped coefficients)',
+    'ElementQuadP': 'parametrised; not in the exact tie (numpy Legendre objects, sqrt scales): handled for p<=5 by the Legendre-family path (formal scales, snapped coefficients)',
 }
 # classes that are not elements with an lbasis of their own
 STRUCTURAL = {
@@ -112,6 +112,51 @@ class Translated:
 
     def values(self):
         return [b[0] for b in self.basis]
+
+
+PMAX_LEGENDRE = 5     # bound of the symbolic treatment of ElementLinePp(p) / ElementQuadP(p) (stated in the theorems' comments)
+
+
+class TranslatedPP:
+    """ElementLinePp(p) / ElementQuadP(p): exact polynomials in the coordinates AND the formal scales
+    c_n = sqrt((2n-1)/2) (vlib/c09_pp.py).  NumPy's float Legendre coefficients are snapped to rationals (<= 4e-16)."""
+
+    def __init__(self, cls, p):
+        from . import c09_pp
+        self.label = f'{cls.__name__}({p})'
+        self.name = f'{cls.__name__}_{p}'
+        self.p = p
+        try:
+            self.dim, self.nv, basis, scales, self.elem = c09_pp.run(cls, p)
+        except (SymbolicError, NonRational) as ex:
+            raise TranslateError(f'{self.label}: symbolic execution failed: {ex}')
+        except Exception as ex:  # noqa
+            raise TranslateError(f'{self.label}: lbasis raised {type(ex).__name__}: {ex}')
+        self.family = 'h1'
+        self.scales = scales          # {argument of sqrt: variable index}
+        d = self.dim
+        self.basis = []
+        for i, tup in enumerate(basis):
+            shp = tuple(shape_of(f) for f in tup)
+            if shp != ((), (d,)):
+                raise TranslateError(f'{self.label}: lbasis({i}) returned shapes {shp}')
+            self.basis.append(tup)
+        locs = np.asarray(self.elem.doflocs)
+        if locs.shape != (len(self.basis), d):
+            raise TranslateError(f'{self.label}: doflocs shape {locs.shape}')
+        self.doflocs = [[rat(v) for v in row] if np.all(np.isfinite(row)) else None for row in locs]
+
+    def values(self):
+        return [b[0] for b in self.basis]
+
+
+def legendre_family():
+    import skfem.element as E
+    out = []
+    for cls in (E.ElementLinePp, E.ElementQuadP):
+        for p in range(1, PMAX_LEGENDRE + 1):
+            out.append(TranslatedPP(cls, p))
+    return out
 
 
 # --------------------------------------------------------------------------- Coq emitters
@@ -308,9 +353,38 @@ def generate(log=None):
             groups.setdefault('C09_G_Global', []).append((n,
                 f'Definition {n}_table : dtable :=\n  {ent}.\n'
                 f'Lemma {n}_table_ok : dtable_ok {n}_table = true.\nProof. vm_compute. reflexivity. Qed.\n'))
+            from . import c09_gdof
+            got, want = c09_gdof.run_gdof(e), c09_gdof.expected(e)
+            nn = e.refdom.nnodes
+            refp = [[rat(x) for x in col] for col in np.asarray(e.refdom.p).T]
+
+            def cents(lst):
+                return '[' + ';\n    '.join(f'("{k}"%string, {cqs([comb.get(v, Fr(0)) for v in range(nn)])})' for k, comb in lst) + ']'
+            try:
+                dl = '[' + '; '.join(cqs([rat(x) for x in row]) for row in np.asarray(e.doflocs)) + ']'
+            except NonRational as ex:
+                raise TranslateError(f'{n}: doflocs: {ex}')
+            groups['C09_G_Global'].append((n + '_gdof',
+                f'Definition {n}_g : gelem :=\n  mkGelem "{n}"%string {d}%nat [' + '; '.join(cqs(r) for r in refp) + f']\n    {cents(got)}\n    {cents(want)}\n    {dl}.\n'
+                f'Lemma {n}_gdof : gdof_ok {n}_g = true.\nProof. vm_compute. reflexivity. Qed.\n'))
             names_glob.append(n)
             info['global'].append({'name': n, 'dim': d, 'derivatives': int(e.derivatives), 'table_entries': len(tab),
                                    'power_basis': len(tab[0][1])})
+    # the integrated-Legendre family (excluded from the exact tie above; formal scales, snapped coefficients)
+    names_leg = []
+    info['legendre'] = []
+    for tr in legendre_family():
+        n = tr.name
+        translated[n] = tr
+        txt = [f'Definition {n}_e : elem :=\n  {celem(tr)}.\n',
+               f'Lemma {n}_deriv : deriv_ok {n}_e = true.\nProof. vm_compute. reflexivity. Qed.\n',
+               f'Lemma {n}_dualp : duality_param_ok {n}_e = true.\nProof. vm_compute. reflexivity. Qed.\n',
+               f'Lemma {n}_pou : pou_ok {n}_e = true.\nProof. vm_compute. reflexivity. Qed.\n']
+        groups.setdefault('C09_P_' + type(tr.elem).__name__, []).append((n, '\n'.join(txt)))
+        names_leg.append(n)
+        info['legendre'].append({'name': n, 'label': tr.label, 'dim': tr.dim, 'variables': tr.nv, 'nbfun': len(tr.basis),
+                                 'scales(sqrt argument -> variable index)': {str(k): v for k, v in tr.scales.items()},
+                                 'max_degree': max(b[0].degree() for b in tr.basis)})
     # the summary file: lists + Forall lemmas assembled from the per-element lemmas
     for g, parts in groups.items():
         chunks[g] = HEADER + '\n' + '\n'.join(t for _, t in parts)
@@ -325,6 +399,7 @@ def generate(log=None):
             'Definition h1_elements : list elem :=\n  [' + '; '.join(f'{n}_e' for n in names_dual) + '].\n',
             'Definition lowest_order_elements : list (elem * (bool * nat * list Q * list functional)) :=\n  ['
             + '; '.join(f'({n}_e, ({n}_cube, {n}_n, {n}_signs, {n}_funs))' for n in names_flux) + '].\n',
+            'Definition legendre_elements : list elem :=\n  [' + '; '.join(f'{n}_e' for n in names_leg) + '].\n',
             'Definition global_tables : list (String.string * dtable) :=\n  ['
             + '; '.join(f'("{n}"%string, {n}_table)' for n in names_glob) + '].\n',
             forall_lemma('all_deriv_ok', 'deriv_ok e = true', 'all_elements', names_all, 'deriv'),
@@ -333,9 +408,14 @@ def generate(log=None):
             forall_lemma('h1_pou_ok', 'pou_ok e = true', 'h1_elements', names_dual, 'pou'),
             forall_lemma('lowest_fdual_ok', 'lo_fdual_ok e = true', 'lowest_order_elements', names_flux, 'fdual'),
             forall_lemma('lowest_tdual_ok', 'lo_tdual_ok e = true', 'lowest_order_elements', names_flux, 'tdual'),
+            forall_lemma('legendre_deriv_ok', 'deriv_ok e = true', 'legendre_elements', names_leg, 'deriv'),
+            forall_lemma('legendre_dual_ok', 'duality_param_ok e = true', 'legendre_elements', names_leg, 'dualp'),
+            forall_lemma('legendre_pou_ok', 'pou_ok e = true', 'legendre_elements', names_leg, 'pou'),
+            'Definition global_functionals : list gelem :=\n  [' + '; '.join(f'{n}_g' for n in names_glob) + '].\n',
+            forall_lemma('global_gdof_ok', 'gdof_ok e = true', 'global_functionals', names_glob, 'gdof'),
             forall_lemma('global_tables_ok', 'dtable_ok (snd e) = true', 'global_tables', names_glob, 'table_ok'),
             ]
-    info['names'] = {'all': names_all, 'h1': names_dual, 'lowest': names_flux, 'global': names_glob}
+    info['names'] = {'all': names_all, 'h1': names_dual, 'lowest': names_flux, 'global': names_glob, 'legendre': names_leg}
     return chunks, '\n'.join(summ), info, translated
 
 
